@@ -224,9 +224,14 @@ def run_impl(case):
             o = {'c': c}
             if ch in w.defined_channels:
                 g = _guard(lambda: _cvjson(py_build(case['r']).constant_value(ch)))
-                if g[0] != 'ok':
+                if g[0] == 'err':
+                    # constant_value itself raised (KeyError inside a transformation chain): get_sampled raises the same
+                    o['cv'] = None
+                    o['cv_err'] = g[1]
+                elif g[0] != 'ok':
                     return {'crash': 'constant_value: %s' % (g,)}
-                o['cv'] = g[1]
+                else:
+                    o['cv'] = g[1]
             else:
                 o['cv'] = None
             def gs_call():
